@@ -150,7 +150,7 @@ def msg_of_event(ev, charset='latin1'):
     return mido.MetaMessage(t, time=d, **a)
 
 
-ASSEMBLIES = ('ctor', 'append', 'extend', 'iadd', 'add', 'mul', 'slice', 'copy', 'insert', 'add_track', 'tracks_kw', 'setitem')
+ASSEMBLIES = ('ctor', 'append', 'extend', 'iadd', 'add', 'mul', 'slice', 'copy', 'insert', 'add_track', 'tracks_kw', 'setitem', 'attrs_after')
 
 
 def assemble_track(msgs, how, rng):
@@ -205,7 +205,14 @@ def midifile_of(fmt, division, tracks, charset='latin1', rng=None, how=None):
     if how == 'tracks_kw':
         return mido.MidiFile(type=fmt, ticks_per_beat=division, charset=charset,
                              tracks=[mido.MidiTrack(m) for m in built])
-    mid = mido.MidiFile(type=fmt, ticks_per_beat=division, charset=charset)
+    if how == 'attrs_after':
+        # an empty file first, its header fields assigned afterwards (the attributes are documented as plain attributes)
+        mid = mido.MidiFile()
+        mid.type = fmt
+        mid.ticks_per_beat = division
+        mid.charset = charset
+    else:
+        mid = mido.MidiFile(type=fmt, ticks_per_beat=division, charset=charset)
     for msgs in built:
         if how == 'add_track':
             # add_track() puts a track_name event in front when a name is given; without a name it is an empty track
